@@ -9,8 +9,8 @@
      quiet e                           events that cannot touch the table while no connection is up
                                        (connect failure, timer, disconnect(), updateMetadata, and the disabled ones)
      CInv                              invariant of every reachable state (C10_reachable) *)
-From AV Require Import Base.Util Model.Framing Model.BrokerClient Model.BrokerClientHook
-  Proofs.BrokerClientTbl Proofs.BrokerClientInv Proofs.BrokerClientC06 Proofs.BrokerClientC10 Proofs.BrokerClientExtra Proofs.BrokerClientHook.
+From AV Require Import Base.Util Model.Framing Model.BrokerClient
+  Proofs.BrokerClientTbl Proofs.BrokerClientInv Proofs.BrokerClientC06 Proofs.BrokerClientC10 Proofs.BrokerClientExtra.
 
 Theorem C10_reachable : forall evs, CInv (fst (run init evs)).
 Proof. exact reachable_inv. Qed.
@@ -164,36 +164,6 @@ Print Assumptions C10_closed_forever.
 
 (* the close Deferred fires exactly when there is no transport left: never twice (no OErr: C06_exactly_once) *)
 
-(* ------------------------------------------------------------------ user callbacks inside the queue flush (finding F-C10-1)
-   Model/BrokerClientHook.v adds the one place where user code runs in the middle of a method: the callback of a
-   no-reply request fires inside _sendQueued.  HMakeThen rid a = makeRequest(rid, .., expectResponse=False) whose
-   callback calls close() or cancels another request.  [hrun true] is the loop as it is now (commit 7c12cf4). *)
-
-(* every state reachable with such callbacks satisfies the same invariant, so every step-level theorem above applies *)
-Theorem C10_reentrant_reachable : forall evs, CInv (fst (fst (hrun true hinit evs))).
-Proof. exact reachable_inv_h. Qed.
-Print Assumptions C10_reentrant_reachable.
-
-(* a request whose Deferred fired - in particular one failed by a close() or cancelled from inside the flush - is
-   never written, on this or any later connection *)
-Theorem C10_reentrant_never_resent : forall evs s hk outs a h oc b,
-  hrun true hinit evs = ((s, hk), outs) -> outs = a ++ ODef h oc :: b -> forall rid, ~ In (OWrite h rid) b.
-Proof. exact never_resent_h. Qed.
-Print Assumptions C10_reentrant_never_resent.
-
-(* without such callbacks the extended machine is the machine of Model/BrokerClient.v *)
-Theorem C10_reentrant_conservative : forall evs s, CInv s ->
-  hrun true (s, []) (map HEv evs) = ((fst (run s evs), []), snd (run s evs)).
-Proof. exact hrun_conservative. Qed.
-Print Assumptions C10_reentrant_conservative.
-
-(* the loop as it was before the repair (`if tReq.sent is None` only): the theorem is false - close() from the callback
-   of a no-reply request, and the request queued behind it is written after close() failed its Deferred *)
-Theorem C10_unguarded_flush_refuted : exists evs s hk outs a h oc b rid,
-  hrun false hinit evs = ((s, hk), outs) /\ outs = a ++ ODef h oc :: b /\ In (OWrite h rid) b.
-Proof. exact unguarded_flush_refuted. Qed.
-Print Assumptions C10_unguarded_flush_refuted.
-
 (* ------------------------------------------------------------------ non-vacuity *)
 (* a connected state with an answered (id 3), a cancelled-but-written (id 1), a no-reply (id 4) and two live
    requests (ids 2, 5): lost, two failed attempts, then connected - exactly 2 and 5 are written, in that order *)
@@ -213,15 +183,6 @@ Example idle_nonvacuous :
   /\ snd (run init [EMake 1 true; EConnOk; ECancel 0; ELost]) = [OConnect 0; OWrite 0 1; ODef 0 FailCancelled]
   /\ snd (step s (EMake 7 true)) = [OConnect 0].
 Proof. vm_compute. repeat split. Qed.
-
-(* F-C10-1 witness on the current loop: request 1 (no reply) is written, its callback closes the client, request 2 is
-   failed and NOT written; with a cancelling callback request 2 is cancelled and skipped, request 3 still goes out *)
-Example reentrant_nonvacuous :
-  snd (hrun true hinit [HMakeThen 1 HClose; HEv (EMake 2 true); HEv EConnOk])
-  = [OConnect 0; OWrite 0 1; ODef 0 SuccNone; OLose; ODef 1 FailClosed]
-  /\ snd (hrun true hinit [HMakeThen 1 (HCancel 1); HEv (EMake 2 true); HEv (EMake 3 true); HEv EConnOk])
-  = [OConnect 0; OWrite 0 1; ODef 0 SuccNone; ODef 1 FailCancelled; OWrite 2 3].
-Proof. vm_compute. split; reflexivity. Qed.
 
 (* close while backing off, with two requests waiting; later events do nothing *)
 Example close_nonvacuous :
